@@ -8,7 +8,7 @@ From Coq Require Import Reals List Bool ZArith.
 From PyrexLib Require Import RealPrims Vec3Facts CPair SignalAlg.
 From PyrexModel Require Import ButterModel AntennaResponseModel.
 From PyrexGen Require Import Gen_antenna.
-From PyrexProofs Require Import C08_proofs.
+From PyrexProofs Require Import C08_proofs FilterBridge C08_concrete.
 Import ListNotations.
 Open Scope R_scope.
 
@@ -176,3 +176,26 @@ Theorem receive_sums_components : forall (P : Type) (apply : Sig -> P -> option 
   = (signals ++ [mkSig (sg_times o1) (vals_add (sg_values o1) (sg_values o2)) ty_voltage], RecvOk).
 Proof. exact receive_sums_components_stmt. Qed.
 Print Assumptions receive_sums_components.
+
+(* --- the same without hypotheses: concrete_filter is C05's model of Signal.filter_frequencies
+       (Model/FilterModel.v, zero-padded DFT, any length); its length / linearity / passivity are C05's
+       theorems, carried over by Proofs/FilterBridge.v (lincomb, energy = indexed sum, cabs = Cmod) ------ *)
+Theorem response_linear_and_energy_concrete :
+  (forall self dir pol fr a b x y,
+     well_formed x -> sg_times y = sg_times x -> sg_type y = sg_type x -> length (sg_values y) = length (sg_values x) ->
+     Antenna_apply_response (sig_filter_of concrete_filter) self (sig_lincomb a b x y) dir pol fr
+     = opt_lincomb a b (Antenna_apply_response (sig_filter_of concrete_filter) self x dir pol fr)
+                       (Antenna_apply_response (sig_filter_of concrete_filter) self y dir pol fr)) /\
+  (forall self dir pol fr a b x y,
+     well_formed x -> sg_times y = sg_times x -> sg_type y = sg_type x -> length (sg_values y) = length (sg_values x) ->
+     DipoleAntenna_apply_response (sig_filter_of concrete_filter) self (sig_lincomb a b x y) dir pol fr
+     = opt_lincomb a b (DipoleAntenna_apply_response (sig_filter_of concrete_filter) self x dir pol fr)
+                       (DipoleAntenna_apply_response (sig_filter_of concrete_filter) self y dir pol fr)) /\
+  (forall pos z x eff fc bw eh s dir pol fr o,
+     0 < fc - bw / 2 -> 0 < bw -> well_formed s ->
+     DipoleAntenna_apply_response (sig_filter_of concrete_filter) (dipole_of_params pos z x eff fc bw eh) s dir pol fr = Some o ->
+     exists k, sg_values o = map (Rmult k) (concrete_filter (sg_times s) (sg_values s)
+                  (fun f => DipoleAntenna_frequency_response (dipole_of_params pos z x eff fc bw eh) f) fr)
+               /\ energy (sg_values o) <= k * k * energy (sg_values s)).
+Proof. exact response_linear_and_energy_concrete_stmt. Qed.
+Print Assumptions response_linear_and_energy_concrete.
